@@ -843,6 +843,10 @@ func mergeReplay(ctx *core.Ctx, id string, raw json.RawMessage) {
 		bytexReplayCall(ctx, id, c)
 		return
 	}
+	if c.Func == "Equal" && (rj.HasDup(a) || rj.HasDup(b)) {
+		runEqualLaws(ctx, id) // repeated member names: only the relation laws apply
+		return
+	}
 	switch c.Func {
 	case "MergePatch":
 		m.checkEdge(a, b, c.Args[0], c.Args[1], mergeCfg{ordered: id == "C05"})
@@ -932,4 +936,47 @@ func runMergeOutputs(ctx *core.Ctx, tier string) {
 		}
 		ctx.AddState(rj.Canon(a))
 	})
+}
+
+// runEqualLaws: the relation laws on texts for which no value oracle exists (objects with repeated
+// member names, also spelled with escapes): Equal must still be reflexive, symmetric and transitive.
+func runEqualLaws(ctx *core.Ctx, id string) {
+	texts := []string{`{"a":1,"a":1}`, `{"a":1,"b":1}`, `{"a":2,"a":1}`, `{"a":1}`, `{"a":1,"a":2}`, `{"a":2}`, `{"a":1,"a":1}`, `{"a":2,"a":1}`, `{"b":1,"a":1}`,
+		`{"a":1,"b":1,"b":2}`, `{"a":1,"b":2}`, `{"b":2,"a":1,"a":1}`, `{"a":1,"b":1,"c":1}`, `{"a":1,"a":1,"a":1}`, `{"a":null,"a":1}`, `{"a":1,"a":null}`, `{"a":null}`, `{}`,
+		`{"o":{"a":1,"a":1}}`, `{"o":{"a":1,"b":1}}`, `{"o":{"a":2,"a":1}}`, `{"o":{"a":1}}`, `[{"a":2,"a":1}]`, `[{"a":1}]`, `[{"a":1,"b":1}]`, `[{"a":1,"a":1}]`,
+		`{"a":{"x":1},"a":{"y":1}}`, `{"a":{"y":1}}`, `{"a":{"x":1,"y":1}}`, `{"a":[1],"a":[1,2]}`, `{"a":[1,2]}`}
+	m0 := &mergeRun{id: id, ctx: ctx}
+	n := len(texts)
+	rel := make([][]bool, n)
+	for i := range rel {
+		rel[i] = make([]bool, n)
+	}
+	ctx.Parallel(n, func(w *core.Worker, i int) {
+		m := *m0
+		m.w = w
+		for j := range texts {
+			r := m.Equal(texts[i], texts[j])
+			if r.Panic != "" {
+				m.viol("equal-panics", panicKey(r), fmt.Sprintf("Equal(%s, %s) panics: %s", texts[i], texts[j], r.Panic), "Equal", texts[i], texts[j])
+			}
+			rel[i][j] = r.Bool
+		}
+	})
+	m := *m0
+	ctx.Count("equal_law_texts", int64(n))
+	for i := 0; i < n; i++ {
+		if !rel[i][i] {
+			m.viol("equal-not-reflexive", "equal-not-reflexive", fmt.Sprintf("Equal(%s, %s) = false", texts[i], texts[i]), "Equal", texts[i], texts[i])
+		}
+		for j := 0; j < n; j++ {
+			if rel[i][j] != rel[j][i] {
+				m.viol("equal-not-symmetric", "equal-not-symmetric", fmt.Sprintf("Equal(%s, %s) = %v but Equal(%s, %s) = %v", texts[i], texts[j], rel[i][j], texts[j], texts[i], rel[j][i]), "Equal", texts[i], texts[j])
+			}
+			for k := 0; k < n; k++ {
+				if rel[i][j] && rel[j][k] && !rel[i][k] {
+					m.viol("equal-not-transitive", "equal-not-transitive", fmt.Sprintf("Equal(%s, %s) and Equal(%s, %s) but not Equal(%s, %s)", texts[i], texts[j], texts[j], texts[k], texts[i], texts[k]), "Equal", texts[i], texts[k])
+				}
+			}
+		}
+	}
 }
